@@ -26,6 +26,7 @@ import (
 	"verif/keys"
 	"verif/ref/der"
 	"verif/ref/refp7"
+	"verif/shim/vtime"
 )
 
 func init() {
@@ -44,7 +45,7 @@ func init() {
 					u = append(u, fmt.Sprintf("sign#k%d#i%d", k, i))
 				}
 			}
-			return append(u, "openssl")
+			return append(u, "openssl", "zones")
 		},
 		Run:    c05Run,
 		Budget: dur(5*time.Minute, 40*time.Minute),
@@ -242,6 +243,24 @@ func c05Check(c *hx.Ctx, k int, cert *x509.Certificate, ty c05Type, content []by
 		bad("reference verifier", "contentType attribute differs from the content type", nil)
 		return
 	}
+	// DER also constrains the value forms: a signing time is UTCTime "YYMMDDHHMMSSZ" (or
+	// GeneralizedTime "YYYYMMDDHHMMSSZ"): seconds present, no fraction, no offset but Z
+	for _, a := range g.Attrs {
+		if bytes.Equal(a.OID, refp7.OIDSigningTime) {
+			for _, v := range a.Values {
+				okForm := (v.Tag == 0x17 && len(v.Val) == 13 || v.Tag == 0x18 && len(v.Val) == 15) && v.Val[len(v.Val)-1] == 'Z'
+				for _, ch := range v.Val[:max(len(v.Val)-1, 0)] {
+					if ch < '0' || ch > '9' {
+						okForm = false
+					}
+				}
+				if !okForm {
+					bad("reference verifier", "signingTime is not in the DER form (UTC, seconds, 'Z')", map[string]any{"value": string(v.Val)})
+					return
+				}
+			}
+		}
+	}
 	sum := sha256.Sum256(content)
 	if !bytes.Equal(g.MessageDigest(), sum[:]) {
 		bad("reference verifier", "messageDigest attribute is not SHA-256 of the content", nil)
@@ -381,6 +400,25 @@ func c05Run(c *hx.Ctx, tier, unit string) {
 					}
 					c.Tick()
 					c05Check(c, 1, cert, ty, c05Content(n, true), sess, fmt.Sprintf("openssl issuer=%s serial=%s len=%d", iss.name, serial.Text(16), n))
+				}
+			}
+		}
+		return
+	}
+	if parts[0] == "zones" {
+		// the process's local zone must not show in the output: the clock is reported in several zones
+		// (whole-hour, fractional-hour, date-changing offsets)
+		defer vtime.Unset()
+		inst := time.Date(2024, 12, 31, 23, 30, 15, 0, time.UTC)
+		cert := keys.C(1)
+		for _, z := range []*time.Location{time.UTC, time.FixedZone("+01:00", 3600), time.FixedZone("-05:00", -5*3600), time.FixedZone("+05:30", 5*3600+1800), time.FixedZone("+14:00", 14*3600), time.FixedZone("-12:00", -12*3600)} {
+			vtime.Set(inst.In(z))
+			for _, ty := range c05Types()[:2] {
+				for _, n := range []int{0, 64} {
+					if !c.Next() {
+						continue
+					}
+					c05Check(c, 1, cert, ty, c05Content(n, ty.name == "data"), nil, fmt.Sprintf("zone=%s type=%s len=%d", z, ty.name, n))
 				}
 			}
 		}
